@@ -238,7 +238,7 @@ func pivotRun(x *run, early, late *world, scheme string, seed int64) {
 		x.cancel = nil
 		x.sum.Count("pivot:cycle")
 		x.mu.Unlock()
-		if err != nil && err != snap.ErrCancelled {
+		if err != nil && !isCancel(err) {
 			x.mu.Lock()
 			x.violate(fmt.Sprintf("snap sync failed although a peer able to make progress is present: %v", err), tl.M{})
 			x.mu.Unlock()
